@@ -182,9 +182,22 @@ def gen_lineage(rng):
     c["splitter"] = {"options": {"A": rng.choice(["binomial", "perfect", "duplicate"]), "B": rng.choice(["binomial", "perfect", "duplicate"]),
                                  "volume": rng.choice(["binomial", "binomial", "perfect", "duplicate"])}, "noise": rng.choice([0.0, 0.2, 0.5])}
     dt = rng.choice([0.25, 0.5]); n = rng.randint(6, 16)
-    c["times"] = [i * dt for i in range(n)]
+    # decimal grids: (t_k - t_0)/dt is not exactly k for some k (43, 81, 86, ... at dt = 0.1): a daughter's grid must still start at the
+    # first point not before the mother's last time (seeded change S3_C19: index computed by a truncating division)
+    if rng.random() < 0.35:
+        dt = rng.choice([0.1, 0.1, 0.05]); n = rng.randint(50, 95)
+        c["parameters"]["gr"] = min(c["parameters"]["gr"], 0.5); c["parameters"]["thr_v"] = max(c["parameters"]["thr_v"], 2.0); c["parameters"]["thr_d"] = 1.0   # at most ~2^7 cells
+    c["times"] = list(__import__("numpy").linspace(0.0, dt * (n - 1), n)) if rng.random() < 0.5 else [i * dt for i in range(n)]
+    c["times"] = [float(v) for v in c["times"]]
     # keep populations small: division not faster than about once per 1.5 time units
     c["parameters"]["thr_t"] = max(c["parameters"]["thr_t"], 2.0); c["parameters"]["kde"] = min(c["parameters"]["kde"], 0.3)
+    # a division event's propensity is proportional to the volume: keep the volume bounded (no multiplicative volume events, no
+    # duplicated volume) and the event rate low on long grids, or the population explodes
+    if c["devents"]:
+        c["devents"] = [[k, ""] for k, sp in c["devents"]]
+        c["vevents"] = [ev for ev in c["vevents"] if ev[0] != "multiplicative volume"]
+        if c["splitter"]["options"]["volume"] == "duplicate": c["splitter"]["options"]["volume"] = "binomial"
+        if len(c["times"]) > 40: c["parameters"]["kde"] = min(c["parameters"]["kde"], 0.1)
     return c
 
 def impl_lineage(case):
